@@ -65,6 +65,9 @@ PRODUCER = {"die": "Die.write_yaml", "alloc": "Allocation.write_yaml", "netgen":
 # classes of loss that the string builders are known for (open findings)
 DROPS = {"net-weight", "terminal", "flip", "aspect-ratio", "region-areas", "rect-region"}
 YAML_WORDS = {"null", "Null", "NULL", "true", "True", "TRUE", "false", "False", "FALSE"}
+# valid identifiers that are prefixes of each other, look like YAML 1.1 / 1.2 scalars of another type, or like numbers
+ODD_NAMES = ["M1", "M10", "M1_0", "M_", "y", "n", "yes", "No", "on", "off", "null", "true", "True", "NULL", "x", "e5",
+             "inf", "nan", "_1", "_0x1F", "O0"]
 
 _TMP = {"dir": None}
 
@@ -431,6 +434,24 @@ def gen_die(rng):
     return {"prod": "die", "W": xs[-1], "H": ys[-1], "regions": regions, "op": op}
 
 
+def gen_big_die(rng, n, k):
+    """a die with many regions on an n x n lattice; integral numbers written as ints; odd region names"""
+    q = rng.choice([F(1, 4), F(1, 2), F(1)])
+    xs = c01.lattice_lines(rng, n, q, 8 * n)
+    ys = c01.lattice_lines(rng, n, q, 8 * n)
+    rects = c01.place_regions(rng, n, n, k, "random")
+    names = ["#", "#", "BRAM", "DSP"] + ODD_NAMES
+    regions = [[(xs[i0] + xs[i1]) / 2, (ys[j0] + ys[j1]) / 2, xs[i1] - xs[i0], ys[j1] - ys[j0], rng.choice(names)]
+               for (i0, j0, i1, j1) in rects]
+    op = rng.choice([None, None, ["split", rng.choice([F(2), F(3)]), rng.choice([3, 8, 20])]])
+    return {"prod": "die", "W": xs[-1], "H": ys[-1], "regions": regions, "op": op, "ints": rng.random() < 0.5}
+
+
+def big_die_cases(rng, quick):
+    sizes = [(8, 20), (12, 40)] if quick else [(8, 20), (12, 40), (10, 30), (14, 60), (16, 90), (12, 0), (9, 25), (20, 120)]
+    return [gen_big_die(rng, n, k) for n, k in sizes]
+
+
 def die_obs(d):
     return {"W": d.width, "H": d.height, "blockages": [robs(r) for r in d.blockages],
             "spec": [robs(r) for r in d.specialized_regions], "ground": [robs(r) for r in d.ground_regions]}
@@ -439,11 +460,16 @@ def die_obs(d):
 def run_die(case):
     from frame.die.die import Die
     reset_eps()
-    tree = {"width": float(case["W"]), "height": float(case["H"])}
+    num = (lambda v: int(v) if (case.get("ints") and F(v).denominator == 1) else float(v))
+    tree = {"width": num(case["W"]), "height": num(case["H"])}
     if case["regions"]:
-        tree["regions"] = [[float(v) for v in r[:4]] + [r[4]] for r in case["regions"]]
+        tree["regions"] = [[num(v) for v in r[:4]] + [r[4]] for r in case["regions"]]
+    pre = None
     try:
         d = Die(tree)
+        if case["op"]:
+            # the die is written before it is refined in place, too
+            pre = {"before": die_obs(d), "t": d.write_yaml()}
         if case["op"] and case["op"][0] == "split":
             d.split_refinable_regions(float(case["op"][1]), case["op"][2])
         elif case["op"] and case["op"][0] == "grid":
@@ -464,6 +490,15 @@ def run_die(case):
     obs["loaded"] = res["text"].get("obs")
     obs["msg"] = res["text"].get("err", "")
     obs["forms"] = forms_summary(res)
+    obs["t3"] = d.write_yaml()              # once more, after the readers have run
+    if pre is not None:
+        reset_eps()
+        try:
+            pre["loaded"] = die_obs(Die(pre["t"]))
+        except Exception as e:
+            pre["loaded"], pre["msg"] = None, f"{type(e).__name__}: {str(e)[:200]}"
+        reset_eps()
+        obs["pre"] = pre
     return obs
 
 
@@ -476,8 +511,15 @@ def coq_die(case, obs):
     if not obs["built"] or obs["tree1"] is None:
         return "true"
     _ROUTES.append((case, "die", groutes(obs["t1"], obs["path"], obs["forms"]), text_abs(obs["t1"])))
-    return (f"die_text_ok {gdie(obs['before'])} {gtree(obs['tree1'])} "
-            f"{gopt(None if obs['loaded'] is None else gdie(obs['loaded']))} {gtext(obs['t1'])}")
+    e = (f"die_text_ok {gdie(obs['before'])} {gtree(obs['tree1'])} "
+         f"{gopt(None if obs['loaded'] is None else gdie(obs['loaded']))} {gtext(obs['t1'])}")
+    pre = obs.get("pre")
+    if pre:
+        ptree, _ = yload(pre["t"])
+        if ptree is not None:
+            e += (f" && die_text_ok {gdie(pre['before'])} {gtree(ptree)} "
+                  f"{gopt(None if pre['loaded'] is None else gdie(pre['loaded']))} {gtext(pre['t'])}")
+    return e
 
 
 def cover_area(r, others):
@@ -491,7 +533,23 @@ def oracle_die(case, obs):
     why = judge_text(obs["t1"], obs["forms"], "die")
     if why:
         return why
-    a, b = obs["before"], obs["loaded"]
+    why = same_die(obs["before"], obs["loaded"])
+    if why:
+        return why
+    if obs.get("pre"):
+        if obs["pre"]["loaded"] is None:
+            return f"rejected: the die written before its refinement is not accepted back: {obs['pre'].get('msg')}"
+        why = same_die(obs["pre"]["before"], obs["pre"]["loaded"])
+        if why:
+            return why + " (written before the refinement)"
+    if obs["t1"] != obs["t2"] or obs["t1"] != obs["t3"]:
+        return "rewrite-differs: a later document differs from the first"
+    if not obs["unchanged"]:
+        return "mutated: writing changed the die"
+    return judge_forms(case, obs["t1"], obs["ftext"], obs["forms"], "die")
+
+
+def same_die(a, b):
     if val(a["W"]) != val(b["W"]) or val(a["H"]) != val(b["H"]):
         return f"size: die {a['W']} x {a['H']} reloaded as {b['W']} x {b['H']}"
     if [rkey(r) for r in a["blockages"]] != [rkey(r) for r in b["blockages"]]:
@@ -506,11 +564,7 @@ def oracle_die(case, obs):
     for r in a["ground"]:
         if abs(cover_area(r, b["ground"]) - val(r["w"]) * val(r["h"])) > tol:
             return f"ground: ground rectangle {rkey(r)} is not ground in the reloaded die"
-    if obs["t1"] != obs["t2"]:
-        return "rewrite-differs: the second document differs from the first"
-    if not obs["unchanged"]:
-        return "mutated: writing changed the die"
-    return judge_forms(case, obs["t1"], obs["ftext"], obs["forms"], "die")
+    return None
 
 
 # --------------------------------------------------------------------------
@@ -532,11 +586,12 @@ def gen_alloc_case(rng):
     return {"prod": "alloc", "cells": c["cells"], "ops": c["ops"], "eps": c["eps"], "aeps": c["aeps"]}
 
 
-def grid_alloc_case(rng, n, pattern, ops, lim):
+def grid_alloc_case(rng, n, pattern, ops, lim, order="rows"):
     """an n x n grid of cells (the shape of the initial allocation of a die after initial_grid(n, n)), sparsely
     occupied: pattern = empty (no occupied cell) | last (only the last cell) | first | late (the first occupied cell
     comes after at least 72 empty ones) | sparse | dense"""
     s = rng.choice([F(1, 2), F(1), F(2), F(4)])
+    odd = rng.random() < 0.5
     idx = list(range(n * n))
     if pattern == "empty":
         occ = set()
@@ -558,11 +613,23 @@ def grid_alloc_case(rng, n, pattern, ops, lim):
              "region": "_", "loc": "NOPOLY"}
         al = []
         if k in occ:
-            names = rng.sample(ac.MODS, rng.randrange(1, 3))
+            names = rng.sample(ODD_NAMES if odd else ac.MODS, rng.randrange(1, 3))
             al = [[m, rng.choice([F(1, 8), F(1, 4), F(1, 2), F(3, 4), F(1), F(15, 16)])] for m in names]
+        if odd and rng.random() < 0.1:
+            r["region"] = rng.choice(ODD_NAMES)
         cells.append({"rect": r, "alloc": al, "depth": 0})
+    # the order in which the cells are listed: rows bottom-up (initial_grid), top-down, columns, reversed, shuffled;
+    # the occupancy pattern refers to the grid index, so 'last' may be listed first
+    if order == "topdown":
+        cells = [cells[j * n + i] for j in reversed(range(n)) for i in range(n)]
+    elif order == "columns":
+        cells = [cells[j * n + i] for i in range(n) for j in range(n)]
+    elif order == "reversed":
+        cells = cells[::-1]
+    elif order == "shuffled":
+        rng.shuffle(cells)
     return {"prod": "alloc", "cells": cells, "ops": ops, "eps": F(1, 2 ** 20), "aeps": F(1, 2 ** 10), "big": lim,
-            "grid": [n, pattern]}
+            "grid": [n, pattern, order]}
 
 
 def big_alloc_cases(rng, quick):
@@ -572,6 +639,7 @@ def big_alloc_cases(rng, quick):
              grid_alloc_case(rng, 9, "last", [R(F(1, 4), 1)], 400),
              grid_alloc_case(rng, 14, "empty", [], 400),
              grid_alloc_case(rng, 14, "late", [R(F(1, 4), 1), R(F(1, 2), 1)], 600),
+             grid_alloc_case(rng, 12, "first", [R(F(1, 2), 1)], 400, "reversed"),
              grid_alloc_case(rng, 20, "last", [], 600)]
     if quick:
         return cases
@@ -587,7 +655,7 @@ def big_alloc_cases(rng, quick):
         if rng.random() < 0.3:
             ops.append([rng.choice(["uniform", "griddify"])])
         cases.append(grid_alloc_case(rng, n, rng.choice(["empty", "last", "first", "late", "late", "sparse", "dense"]),
-                                     ops, 2000))
+                                     ops, 1500, rng.choice(["rows", "topdown", "columns", "reversed", "shuffled"])))
     return cases
 
 
@@ -607,6 +675,8 @@ def write_read_alloc(a, eps):
     st["loaded"] = res["text"].get("obs")
     st["msg"] = res["text"].get("err", "")
     st["forms"] = forms_summary(res)
+    reset_eps(eps)
+    st["t3"] = a.write_yaml()               # once more, after the readers have run
     return st
 
 
@@ -690,8 +760,8 @@ def oracle_alloc(case, obs):
         for m in a["areas"]:
             if m not in b["areas"] or not close(a["areas"][m], b["areas"][m]):
                 return f"ratios: area of {m} {a['areas'][m]} reloaded as {b['areas'].get(m)} ({where})"
-        if st["t1"] != st["t2"]:
-            return f"rewrite-differs: the second document differs from the first ({where})"
+        if st["t1"] != st["t2"] or st["t1"] != st["t3"]:
+            return f"rewrite-differs: a later document differs from the first ({where})"
         if not st["unchanged"]:
             return f"mutated: writing changed the allocation ({where})"
         why = judge_forms(case, st["t1"], st["ftext"], st["forms"], where)
@@ -1307,12 +1377,47 @@ def judge_builder(obs, src, replaced=None, case=None):
     return None
 
 
+def twin_boxes(rng, k):
+    """two congruent rectangles that share a whole side: equal areas, either can be the trunk (a tie in create_stog)"""
+    w, h = F(rng.randrange(1, 17), rng.choice([1, 2, 4])), F(rng.randrange(1, 17), rng.choice([1, 2, 4]))
+    x0, y0 = F(500 + 40 * k), F(rng.randrange(2, 60))
+    a = [x0 + w / 2, y0 + h / 2, w, h]
+    b = [x0 + w + w / 2, y0 + h / 2, w, h] if rng.random() < 0.5 else [x0 + w / 2, y0 + h + h / 2, w, h]
+    return [b, a] if rng.random() < 0.5 else [a, b]
+
+
+def twin_module(rng, k):
+    a, b = twin_boxes(rng, k)
+    area = 2 * a[2] * a[3]
+    kind = rng.choice(["hard", "hard", "flip", "fixed", "soft", "soft-regions"])
+    if kind in ("soft", "soft-regions") and rng.random() < 0.5:
+        a = a + [rng.choice(["dsp", "lut"])]         # the two halves in different regions: swapping them shows
+    if kind == "soft-regions" and len(a) == 5:
+        m = {"area": {"_": area / 2, a[4]: area / 2}, "rectangles": [a, b]}
+    elif kind in ("soft", "soft-regions"):
+        m = {"area": rng.choice([area, area + F(3, 2)]), "rectangles": [a, b]}
+    elif kind == "fixed":
+        m = {"fixed": True, "rectangles": [a, b]}
+    else:
+        m = {"hard": True, "rectangles": [a, b]}
+        if kind == "flip":
+            m["flip"] = True
+    return m
+
+
 def gen_design(rng, need_rects=False):
     """a netlist document the reader accepts (tried on the real reader)"""
     for _ in range(60):
         doc = nc.gen_doc(rng, quirks=False)
         if not isinstance(doc.get("Modules"), dict) or not nc.exact_doc(doc):
             continue
+        if rng.random() < 0.3:
+            for k in range(rng.choice([1, 1, 2])):
+                name = f"TW{k}"
+                if name not in doc["Modules"]:
+                    doc["Modules"][name] = twin_module(rng, k)
+                    if doc.get("Nets") and rng.random() < 0.5:
+                        doc["Nets"][0] = [name] + list(doc["Nets"][0])
         if need_rects:
             if rng.random() < 0.7:       # no terminal, every module with rectangles: a model can be built
                 for k, info in list(doc["Modules"].items()):
@@ -1342,6 +1447,8 @@ def gen_solnet(rng):
             for j in range(rng.randrange(1, 4)):
                 bs.append([F(rng.randrange(8, 400), 4) + 40 * j, F(rng.randrange(8, 400), 4),
                            F(rng.randrange(1, 24), 4), F(rng.randrange(1, 24), 4)])
+            if rng.random() < 0.2:
+                bs = twin_boxes(rng, 3)
             result[k] = bs
     return {"prod": "solnet", "doc": doc, "result": result}
 
@@ -1718,7 +1825,7 @@ def dist_key(case):
 
 
 def extreme_cases(rng, quick):
-    return big_alloc_cases(rng, quick) + large_netgen_cases(quick)
+    return big_alloc_cases(rng, quick) + large_netgen_cases(quick) + big_die_cases(rng, quick)
 
 
 def shrink_in_class(case, key, budget=250):
